@@ -163,6 +163,13 @@ def _variant_to_out_spec(P, fn, adt_name):
     from . import spec as SP
 
     roots = [r for r, a in SP.switch_roots(P, fn, [adt_name]) if a == adt_name]
+    if not roots:
+        # `value as u8`: the declared discriminant is written
+        r0 = strip_sites(evaluate(fn).ret)
+        while r0.op == "cast":
+            r0 = r0.a[1]
+        if r0.op == "discr" and B.peel(r0.a[0]).op == "param":
+            return {v["name"]: v.get("discr", v["index"]) for v in P.adts[adt_name]["variants"]}
     if len(roots) != 1:
         return None
     m = {}
